@@ -37,14 +37,17 @@ def build():
     u.fn(S, [MIMPL, 'fn new'], ret='r', props='C04',
          requires=[E('empty', 'forall|i: Index| !inner.has(i)'), E('inner_wf', 'inner.us_wf()')],
          ensures=[E('wf', 'r.wf()'), E('empty', 'r@ == Map::<Index, T>::empty()'), E('inner', 'r.inner == inner')])
-    u.fn(S, [MIMPL, 'fn remove'], ret='r', props='C04 C12',
+    # C19 (reduced): at every call that can run a component destructor the bookkeeping already treats the value as gone
+    BIT = lambda call: [('before', call, 'proof { assert(/*@L:hint.bit_cleared*/ !self.mask@.contains(id) /*@E*/); }')]
+    BIT_OB = [E('bit_cleared', 'the mask bit is cleared before the raw remove / drop of the value', 'C19')]
+    u.fn(S, [MIMPL, 'fn remove'], ret='r', props='C04 C12', hints=BIT('self.inner.remove(id)'), hint_obligations=BIT_OB,
          requires=[E('wf', 'old(self).wf()')],
          ensures=[E('wf', 'final(self).wf()'),
                   E('ret', 'r == (if old(self)@.dom().contains(id) { Some(old(self)@[id]) } else { None })'),
                   E('map', 'final(self)@ == old(self)@.remove(id)'),
                   E('events', 'final(self).log() == old(self).log() + (if old(self)@.dom().contains(id) { old(self).inner.ev_remove(id) } else { Seq::empty() })', 'C12'),
                   E('ev_frame', 'same_ev(&old(self).inner, &final(self).inner)', 'C12')])
-    u.fn(S, [MIMPL, 'fn drop'], props='C04 C05 C12',
+    u.fn(S, [MIMPL, 'fn drop'], props='C04 C05 C12', hints=BIT('self.inner.drop(id)'), hint_obligations=BIT_OB,
          requires=[E('wf', 'old(self).wf()')],
          ensures=[E('wf', 'final(self).wf()'),
                   E('map', 'final(self)@ == old(self)@.remove(id)'),
@@ -54,6 +57,8 @@ def build():
          ensures=[E('mask', '*r.0 == old(self).mask'), E('inner', '*r.1 == old(self).inner'),
                   E('final', 'final(self).mask == old(self).mask && final(self).inner == *final(r.1)')])
     u.fn(S, [MIMPL, 'fn clear'], props='C04',
+         hints=[('before', 'unsafe { self.inner.clean(', 'proof { assert(/*@L:hint.mask_taken*/ self.mask@ == Set::<u32>::empty() /*@E*/); }')],
+         hint_obligations=[E('mask_taken', 'when clean() runs the destructors the storage mask has already been swapped for the empty one', 'C19')],
          requires=[E('wf', 'old(self).wf()')],
          ensures=[E('wf', 'final(self).wf()'), E('map', 'final(self)@ == Map::<Index, T>::empty()'),
                   E('events', 'final(self).log() == old(self).log()', 'C12'),
@@ -120,7 +125,11 @@ def build():
     u.fn(S, [SIMPL, 'fn not_present_insert'], props='C04 C12', impl_header=HW, key='Storage(&mut)::not_present_insert',
          rules=N8 + [('N13', r'cfg!\(panic = "abort"\)', 'cfg_panic_abort()')],
          requires=WR + [E('absent', '!old(self).data@.dom().contains(id)')],
-         hints=[('start', None, 'broadcast use axiom_guard_resolved;')],
+         hints=[('start', None, 'broadcast use axiom_guard_resolved;'),
+                ('after', 'let guard = RemoveOnDrop(', 'proof { assert(/*@L:hint.guard_armed*/ guard_pre(&*guard.0, guard.1) /*@E*/); }')],
+         hint_obligations=[E('guard_armed', 'at the point where BitSet::add could unwind, the guard precondition holds (value stored, mask bit not yet set, everything else in step)', 'C19')],
+         guard=dict(requires=[E('pre', 'guard_pre(&*old(self).0, old(self).1)')],
+                    ensures=[E('restores', 'final(self).0.wf()', 'C19')]),
          ensures=[E('map', 'final(self).data@ == old(self).data@.insert(id, value)'), E('wf', 'final(self).data.wf()'),
                   E('raw', 'final(self).data.inner.has(id) && final(self).data.inner.val(id) == value && final(self).data.mask@ == old(self).data.mask@.insert(id)'),
                   E('raw_frame', 'forall|j: Index| #![trigger final(self).data.inner.val(j)] j != id ==> final(self).data.inner.val(j) == old(self).data.inner.val(j)'),
